@@ -4,6 +4,7 @@ pub mod ctx;
 pub mod rng;
 pub mod gen;
 pub mod mon;
+pub mod sched;
 pub mod props;
 
 use ctx::{Ctx, Tier};
